@@ -291,15 +291,18 @@ class UserOption(labrea.types.Evaluatable):
     """A USER-DEFINED Evaluatable (legal subclass of labrea's): reads one key like a plain Option without templates.  It keeps
     the set it answers keys() / explain() with -- callers get the very same set object every time."""
 
-    def __init__(self, key, default=None, has_default=False):
+    def __init__(self, key, default=None, has_default=False, name=None):
         self.key = key
         self.default = default
         self.has_default = has_default
         self._keys = {key}
+        self.name = name
 
     def evaluate(self, options):
         from confectioner.templating import dotted_key_exists, get_dotted_key
 
+        if self.name is not None:
+            rt.call("leaf", self.name)  # (user code: a fault can be planned here like in any other callable)
         if dotted_key_exists(self.key, options):
             return copy.deepcopy(get_dotted_key(self.key, options))
         if self.has_default:
@@ -323,6 +326,29 @@ class UserOption(labrea.types.Evaluatable):
 
     def __repr__(self):
         return f"UserOption({self.key!r})"
+
+
+class _KeyReaderMixin:
+    """A plain helper class (NOT an Evaluatable) that brings the four methods along."""
+
+    evaluate = UserOption.__dict__.get("__labrea_evaluate__", UserOption.__dict__["evaluate"])
+    validate = UserOption.__dict__.get("__labrea_validate__", UserOption.__dict__["validate"])
+    keys = UserOption.__dict__.get("__labrea_keys__", UserOption.__dict__["keys"])
+    explain = UserOption.__dict__.get("__labrea_explain__", UserOption.__dict__["explain"])
+
+
+class MixinUserOption(_KeyReaderMixin, labrea.types.Evaluatable):
+    """class Leaf(Helper, Evaluatable): every method is inherited from a base that is not an Evaluatable."""
+
+    def __init__(self, key, default=None, has_default=False, name=None):
+        self.key = key
+        self.default = default
+        self.has_default = has_default
+        self._keys = {key}
+        self.name = name
+
+    def __repr__(self):
+        return f"MixinUserOption({self.key!r})"
 
 
 class PartialBodyError(ValueError):
@@ -527,6 +553,7 @@ class Program:
         self.caches = {}  # dataset id -> backend object (recording / faulty)
         self.presets = []  # (owner id, role, dict object handed to labrea, canonical snapshot)
         self.interfaces = {}
+        self.leaf_calls = bool(spec.get("leaf_calls"))  # user-defined leaves report their evaluations (fault points)
         for node in spec["nodes"]:
             self.add_node(node)
 
@@ -560,9 +587,10 @@ class Program:
         return AllOptions
 
     def _b_opt(self, n):
-        if n.get("impl") == "user":
+        if n.get("impl") in ("user", "user_mixin"):
             d = n.get("default")
-            return UserOption(n["key"], copy.deepcopy(d["v"]) if d else None, has_default=bool(d))
+            return (UserOption if n["impl"] == "user" else MixinUserOption)(n["key"], copy.deepcopy(d["v"]) if d else None, has_default=bool(d),
+                                                                              name=f"leaf_{n['id']}" if self.leaf_calls else None)
         kw = {}
         d = n.get("default") or {"t": "none"}
         t = d["t"]
